@@ -154,3 +154,29 @@ def maximal_roots(eng, pred=None):
         callers = [c for c in cm.get(f.name, ()) if orc.is_gch(c)]
         if not callers or eng.summary(f.name) is sym.OPAQUE:
             yield f
+
+
+def run_canaries(ck, expectations, silent=(), assert_flavour=False):
+    """Positive examples on every run: analyse canaries/sv_canary.hpp with the same rule parts and
+    demand that each deliberately wrong function is reported by the named rule and that the
+    correct twins are not.  expectations: {part: [(rule, function name), ...]}.
+    Canary reports never count as violations of /repo; a canary that is not reported (or a twin
+    that is) makes the run analysis-broken."""
+    from . import common, corpus
+    cfg = corpus.Cfg('NM', 2, 2, 0, canary=True, ndebug=not assert_flavour)
+    res = corpus.run_parts_over([cfg], list(expectations))
+    for part, exps in expectations.items():
+        r = res[part][0]
+        if not r['ok']:
+            raise common.AnalysisBroken('canary TU for %s: %s' % (part, r['broken'][:1500]))
+        bad = [(x.rule, x.key.get('function', '')) for x in r['res']['reports'] if not x.ok]
+        for (rule, fn) in exps:
+            if not any(b[0] == rule and fn in b[1] for b in bad):
+                raise common.AnalysisBroken('canary not reported: rule %s should flag %s (part %s); reported: %s'
+                                            % (rule, fn, part, bad[:12]))
+            ck.ok('canary', sample={'rule': rule, 'canary': fn, 'verdict': 'reported as it must be'})
+        for fn in silent:
+            hit = [b for b in bad if fn in b[1]]
+            if hit:
+                raise common.AnalysisBroken('correct canary twin %s is reported: %s' % (fn, hit[:4]))
+            ck.ok('canary', sample={'canary': fn, 'verdict': 'silent as it must be'})
